@@ -62,7 +62,7 @@ def make_pool(ctx, n, kind="plain", degenerate=False):
         forced_q = (i % 5 == 3)
         S, info = lc.gen_script(rng, option, max_steps=24 if option != "gillespie" else 8, sub_molecule=sub,
                                 mode=("auto" if sub else None), units=("force" if forced_q else rng.random() < 0.3),
-                                quantity=(rng.choice(["mol", "µmol"]) if forced_q else None),
+                                quantity=(rng.choice(["mol", "µmol"]) if forced_q else None), refused_edits=(i % 7 == 2),
                                 zero_tmax=(True if forced0 else None), space_kind=(["grid", "graph"][(i // 9) % 2] if forced0 else None),
                                 degenerate=(degenerate and rng.random() < 0.7))
         info["sub_molecule"] = sub
@@ -285,7 +285,7 @@ def reference_machine(job, pool_by_idx, results):
             st[o] = {"ref": ref, "n": 0, "unfinished": True, "manual": False, "live": True}
             if r.get("T") != 0.0:
                 bad.append((i, "setup-clock", "clock after setup is %r" % r.get("T"), r.get("T"), 0.0))
-            for key, what, impl, exp in lc.init_failures(r):
+            for key, what, impl, exp in lc.init_failures(r) + lc.edit_failures(r):
                 bad.append((i, key, what, impl, exp))
             if r.get("script_changed"):
                 ch = r["script_changed"][0]
